@@ -23,7 +23,8 @@ NoCall == [id |-> 0]
 A0 == [ nOde |-> 0, nOdeJ |-> 0, nJac |-> 0, nEv |-> 0, nCb |-> 0,
         evalOut |-> 0, maxEval |-> -1,
         lastX |-> -1, lastXb |-> "", interrupted |-> FALSE, afterStop |-> 0,
-        modPending |-> "", modBad |-> 0, cbBad |-> 0, ipBad |-> 0, active |-> FALSE ]
+        modPending |-> "", modBad |-> 0, cbBad |-> 0, ipBad |-> 0, active |-> FALSE,
+        recent |-> {}, derivBad |-> 0 ]
 
 TraceInit == l = 1 /\ C = NoCall /\ A = A0
 
@@ -51,7 +52,8 @@ TraceOde ==
                          !.maxEval = IF e.r > @ THEN e.r ELSE @,
                          !.afterStop = IF A.interrupted THEN @ + 1 ELSE @,
                          !.modBad = IF modok THEN @ ELSE @ + 1,
-                         !.modPending = IF plain THEN "" ELSE @]
+                         !.modPending = IF plain THEN "" ELSE @,
+                         !.recent = IF plain THEN @ \cup {e.d} ELSE @]
     /\ UNCHANGED C
 
 TraceJac ==
@@ -76,12 +78,17 @@ TraceCb ==
            okStep  == /\ e.k = A.nCb
                       /\ e.contig                               \* xold is the previous x (to rounding)
                       /\ e.x.r > e.xold.r                       \* strictly advances
-                      /\ e.hasip /\ e.ip.b_ok                   \* interpolant valid on exactly that interval
+                      /\ (C.lowdense => e.hasip) /\ e.ip.b_ok   \* interpolant valid on exactly that interval
            ok == IF first THEN okFirst ELSE okStep
            ipok == first \/ ~e.hasip \/ (e.ip.l_ok /\ e.ip.r_ok /\ (e.ip.fin \/ ~e.fin))
+           \* the derivative the next step starts from is f at the accepted state: the one-step methods evaluate
+           \* f(x_new, y_new) before handing the step to SolOut (BDF works on differences instead)
+           derivok == first \/ C.method = "BDF" \/ e.d \in A.recent
        IN A' = [A EXCEPT !.nCb = @ + 1,
                          !.cbBad = IF ok THEN @ ELSE @ + 1,
                          !.ipBad = IF ipok THEN @ ELSE @ + 1,
+                         !.derivBad = IF derivok THEN @ ELSE @ + 1,
+                         !.recent = {},
                          !.lastX = e.x.r, !.lastXb = e.x.b,
                          !.afterStop = IF A.interrupted THEN @ + 1 ELSE @,
                          !.interrupted = (e.ret = "Interrupt"),
@@ -138,7 +145,9 @@ TracePair ==
                   [] p.mode = "equal_y"         -> PViol(p, Rel_EqualY(Ra, Rb))
                   [] p.mode = "observer"        -> PViol(p, Rel_Observer(Ca, Ra, Cb, Rb))
                   [] p.mode = "budget_prefix"   -> PViol(p, Rel_BudgetPrefix(Ra, Cb, Rb))
-                  [] p.mode = "terminal_prefix" -> PViol(p, Rel_TerminalPrefix(Ra, Cb, Rb))
+                  [] p.mode = "terminal_prefix" -> PViol(p, Rel_TerminalPrefix(Ra, Cb, Rb) /\ p.fact)
+                  [] p.mode = "grid_values"     -> PViol(p, p.fact)
+                  [] p.mode = "mirror_events"   -> PViol(p, p.fact /\ (Ra.status = Rb.status))
                   [] p.mode = "prefix_cb"       -> PViol(p, Rel_PrefixCb(Ra, Cb, Rb))
                   [] p.mode = "equal_cb"        -> PViol(p, Rel_EqualCb(Ra, Rb))
                   [] p.mode = "dense_indep"     -> PViol(p, Rel_DenseIndep(Ra, Rb))
